@@ -118,6 +118,20 @@ func shardMain(a []string) int {
 		fmt.Fprintln(os.Stderr, "known_findings.json:", err)
 		return 2
 	}
+	writeStats := func(st *sim.ShardStats) {
+		st.HashFiles = map[string]string{}
+		b, _ := json.Marshal(st)
+		_ = os.WriteFile(statsFile, b, 0o644)
+	}
+	sim.OnShardAbort = func(st *sim.ShardStats) {
+		// the memory watchdog fired: persist what we have and leave at once
+		cp := *st
+		cp.PerScen = map[string]*sim.ScenStats{"aborted": {Cases: 1}}
+		cp.Hashes = nil
+		writeStats(&cp)
+		fmt.Fprintln(os.Stderr, "memory watchdog: shard aborted, violation recorded")
+		os.Exit(1)
+	}
 	st, err := sim.RunShard(prop, tier, seed, shard, shards, plan, findings, outDir, time.Duration(budgetS)*time.Second)
 	if st != nil {
 		// hashes go to a side file (binary, 8 bytes each)
